@@ -88,6 +88,10 @@ func (s *scopeGen) function(lvl int, tag string) (ast.FuncLit, *fnInfo) {
 	for _, n := range s.names {
 		switch roles[n] {
 		case 1:
+			if r.Chance(1, 3) {
+				// the plain copy idiom: the right-hand side is the outer variable, the target this function's own
+				ss = append(ss, ast.Assign{Name: n, Value: name(n)})
+			}
 			ss = append(ss, ast.Assign{Name: n, Value: ast.Binary{Op: "+", L: call("toa", name(n)), R: ast.StrLit{V: "+" + tag}}})
 		case 2:
 			ss = append(ss, ast.Assign{Name: n, Value: s.lit()})
